@@ -16,6 +16,7 @@ import (
 	"errors"
 	"fmt"
 	"io"
+	"net/netip"
 	"os"
 	"runtime"
 	"sort"
@@ -26,7 +27,10 @@ import (
 	"testing"
 	"time"
 
+	"github.com/daeuniverse/dae/common/consts"
+	componentdns "github.com/daeuniverse/dae/component/dns"
 	dnsmessage "github.com/miekg/dns"
+	"github.com/sirupsen/logrus"
 )
 
 func c09Goid() int64 {
@@ -47,9 +51,10 @@ type c09Sched struct {
 	pipeGate func(name string, args []any) (int, bool)
 }
 type c09Ev struct {
-	t   int
-	at  string // yield name, or "ret:<value>"
-	arg any
+	t    int
+	at   string // yield name, or "ret:<value>"
+	arg  any
+	arg0 any // first argument of the yield (the entry, for the dnsfwd.* points)
 }
 
 func newC09Sched() *c09Sched {
@@ -69,11 +74,14 @@ func (h *c09Sched) hook(name string, args ...any) {
 	ch := make(chan struct{})
 	h.parked[t] = ch
 	h.mu.Unlock()
-	var arg any
+	var arg, arg0 any
 	if len(args) > 1 {
 		arg = args[1]
 	}
-	h.event <- c09Ev{t, name, arg}
+	if len(args) > 0 {
+		arg0 = args[0]
+	}
+	h.event <- c09Ev{t, name, arg, arg0}
 	<-ch
 }
 
@@ -90,7 +98,7 @@ func (h *c09Sched) spawn(t int, f func() string) {
 		h.mu.Lock()
 		delete(h.names, id)
 		h.mu.Unlock()
-		h.event <- c09Ev{t, "ret:" + ret, nil}
+		h.event <- c09Ev{t, "ret:" + ret, nil, nil}
 	}()
 	<-started
 }
@@ -157,6 +165,27 @@ func c09RunHistory(kind string, seed uint64, st *VStream, stat *VStats, run func
 	}
 	stat.Inc(kind + ".inconclusive-unrecovered")
 	return false
+}
+
+// me: the logical thread of the calling goroutine.
+func (h *c09Sched) me() (int, bool) {
+	h.mu.Lock()
+	defer h.mu.Unlock()
+	t, ok := h.names[c09Goid()]
+	return t, ok
+}
+
+// nextEv waits for the next event of thread t.
+func (h *c09Sched) nextEv(t int) c09Ev {
+	select {
+	case e := <-h.event:
+		if e.t != t {
+			e.at = fmt.Sprintf("unexpected-event:%d@%s", e.t, e.at)
+		}
+		return e
+	case <-time.After(c09Budget):
+		panic(c09Inconclusive{fmt.Sprintf("no event of goroutine %d within %v", t, c09Budget)})
+	}
 }
 
 // next waits for the next event of thread t.
@@ -316,6 +345,268 @@ func c09SchedHistory(r *VRand, st *VStream, stat *VStats) (ok bool, where string
 			stat.Inc("sched.hist.retired")
 		}
 	}
+	return
+}
+
+
+// ------------------------------------------------------------------------------------------
+// stream c09loop: forwardWithDialArg / getOrCreateDnsForwarder / retireAllDnsForwarders / evictIdleDnsForwarders
+// over every forwarder created for one cache key (Lean model `Loop`), by schedule replay: the goroutines are
+// parked at the yield points of the entry's methods and, in addition, inside dnsForwarderFactory and inside
+// ForwardDNS (both are the harness's own code, reached through the production hooks of the controller).
+
+type c09LoopFwd struct {
+	idx        int
+	w          *c09LoopWorld
+	closes     atomic.Int32
+	inFlight   atomic.Int32
+	afterClose atomic.Int32
+}
+
+func (f *c09LoopFwd) ForwardDNS(ctx context.Context, data []byte) (*dnsmessage.Msg, error) {
+	if f.closes.Load() > 0 {
+		f.afterClose.Add(1)
+	}
+	f.inFlight.Add(1)
+	f.w.h.hook("c09loop.forward", f)
+	f.inFlight.Add(-1)
+	t, _ := f.w.h.me()
+	f.w.mu.Lock()
+	res := f.w.script[t]
+	f.w.mu.Unlock()
+	switch res {
+	case "trunc":
+		return &dnsmessage.Msg{}, ErrDNSTruncated
+	case "fail":
+		return nil, errors.New("connection reset by peer")
+	case "cancel":
+		return nil, context.Canceled
+	}
+	return &dnsmessage.Msg{}, nil
+}
+func (f *c09LoopFwd) Close() error { f.closes.Add(1); return nil }
+
+type c09LoopWorld struct {
+	c       *DnsController
+	h       *c09Sched
+	mu      sync.Mutex
+	fwds    []*c09LoopFwd
+	entries map[int]*cachedDnsForwarder // forwarder index -> the entry that wraps it, once seen
+	script  map[int]string
+	up      *componentdns.Upstream
+	da      *dialArgument
+	key     dnsForwarderKey
+}
+
+func (w *c09LoopWorld) see(e *cachedDnsForwarder) int {
+	if e == nil {
+		return -1
+	}
+	f, ok := e.forwarder.(*c09LoopFwd)
+	if !ok {
+		return -1
+	}
+	w.mu.Lock()
+	w.entries[f.idx] = e
+	w.mu.Unlock()
+	return f.idx
+}
+
+func (w *c09LoopWorld) cached() (int, *cachedDnsForwarder) {
+	if v, ok := w.c.dnsForwarderCache.Load(w.key); ok {
+		if e, ok := v.(*cachedDnsForwarder); ok {
+			return w.see(e), e
+		}
+	}
+	return -1, nil
+}
+
+func (w *c09LoopWorld) obs(at string, on int, ret string) string {
+	ci, _ := w.cached()
+	cs, es := "-", "-"
+	if ci >= 0 {
+		cs = strconv.Itoa(ci)
+	}
+	if on >= 0 {
+		es = strconv.Itoa(on)
+	}
+	w.mu.Lock()
+	defer w.mu.Unlock()
+	var fw []string
+	for i, f := range w.fwds {
+		inf, rt := int32(0), false
+		if e := w.entries[i]; e != nil {
+			inf, rt = e.inFlight.Load(), e.retired.Load()
+		}
+		fw = append(fw, fmt.Sprintf("%d/%s/%d/%d/%d", inf, c09B(rt), f.closes.Load(), f.inFlight.Load(), f.afterClose.Load()))
+	}
+	return fmt.Sprintf("at=%s e=%s cached=%s ret=%s fw=%s", at, es, cs, ret, strings.Join(fw, ","))
+}
+
+func TestVerifC09Loop(t *testing.T) {
+	st := VOpenStream("c09loop")
+	defer st.Close()
+	stat := NewVStats()
+	r := NewVRand(VSeed() + 47)
+	hist := 2500
+	if VThorough() {
+		hist = 40000
+	}
+	for hi := 0; hi < hist; hi++ {
+		if !c09RunHistory("loop", r.U64(), st, stat, func(rr *VRand) (bool, string) { return c09LoopHistory(rr, st, stat) }) {
+			break
+		}
+	}
+	stat.Write("c09loop")
+}
+
+func c09LoopHistory(r *VRand, st *VStream, stat *VStats) (ok bool, where string) {
+	ok = true
+	n := 2 + r.Intn(3)
+	c := &DnsController{dnsControllerStore: &dnsControllerStore{prefWaitRegistry: newPreferenceWaitRegistry()}}
+	c.log = c09Quiet()
+	c.dnsForwarderIdleTTL = time.Millisecond
+	h := newC09Sched()
+	w := &c09LoopWorld{c: c, h: h, entries: map[int]*cachedDnsForwarder{}, script: map[int]string{},
+		up: &componentdns.Upstream{Scheme: componentdns.UpstreamScheme_UDP, Hostname: "dns.example", Port: 53},
+		da: &dialArgument{l4proto: consts.L4ProtoStr_UDP, ipversion: consts.IpVersionStr_4, bestTarget: netip.MustParseAddrPort("192.0.2.53:53")}}
+	w.key = newDnsForwarderKey(w.up, w.da)
+	oldFactory := dnsForwarderFactory
+	defer func() {
+		verifYieldHook = nil
+		h.releaseAll()
+		dnsForwarderFactory = oldFactory
+		if e := recover(); e != nil {
+			inc, isInc := e.(c09Inconclusive)
+			if !isInc {
+				panic(e)
+			}
+			c09Abandoned.Add(1)
+			stat.Inc("loop.abandoned-attempt")
+			st.Emit("X inconclusive loop "+strings.ReplaceAll(inc.why, " ", "_"), "inconclusive")
+			ok, where = false, strings.ReplaceAll(inc.why, " ", "_")
+		}
+	}()
+	dnsForwarderFactory = func(up *componentdns.Upstream, da dialArgument, _ *logrus.Logger) (DnsForwarder, error) {
+		w.mu.Lock()
+		f := &c09LoopFwd{idx: len(w.fwds), w: w}
+		w.fwds = append(w.fwds, f)
+		w.mu.Unlock()
+		h.hook("c09loop.factory", f)
+		return f, nil
+	}
+	verifYieldHook = h.hook
+	st.Emit(fmt.Sprintf("L reset %d", n), w.obs("idle", -1, "-"))
+	state := make([]string, n) // idle / mid
+	for i := range state {
+		state[i] = "idle"
+	}
+	after := func(tt int, op string) {
+		ev := h.nextEv(tt)
+		for !strings.HasPrefix(ev.at, "ret:") && c09YieldPc[ev.at] == "" && !strings.HasPrefix(ev.at, "c09loop.") && !strings.HasPrefix(ev.at, "unexpected") {
+			h.release(tt) // a yield point this harness does not know: transparent
+			ev = h.nextEv(tt)
+		}
+		at, on, ret := "?"+ev.at, -1, "-"
+		switch {
+		case strings.HasPrefix(ev.at, "ret:"):
+			at, ret = "idle", strings.TrimPrefix(ev.at, "ret:")
+			state[tt] = "idle"
+		case ev.at == "c09loop.factory":
+			at, on = "factory", ev.arg0.(*c09LoopFwd).idx
+			state[tt] = "mid"
+		case ev.at == "c09loop.forward":
+			at, on = "busy", ev.arg0.(*c09LoopFwd).idx
+			state[tt] = "mid"
+		case c09YieldPc[ev.at] != "":
+			at = c09YieldPc[ev.at]
+			if e, isEntry := ev.arg0.(*cachedDnsForwarder); isEntry {
+				on = w.see(e)
+			}
+			state[tt] = "mid"
+		default:
+			state[tt] = "mid"
+		}
+		st.Emit(op, w.obs(at, on, ret))
+		stat.Inc("loop.at." + at)
+		if ret != "-" {
+			stat.Inc("loop.ret." + ret)
+		}
+	}
+	start := func(tt int) {
+		switch x := r.Intn(100); {
+		case x < 76:
+			res := []string{"ok", "ok", "ok", "ok", "fail", "fail", "fail", "trunc", "cancel", "fail"}[r.Intn(10)]
+			w.mu.Lock()
+			w.script[tt] = res
+			w.mu.Unlock()
+			stat.Inc("loop.call." + res)
+			h.spawn(tt, func() string {
+				_, err := c.forwardWithDialArg(context.Background(), w.up, w.da, []byte{0, 1})
+				switch {
+				case err == nil:
+					return "ok"
+				case errors.Is(err, ErrDNSTruncated):
+					return "trunc"
+				case errors.Is(err, context.Canceled):
+					return "cancel"
+				case strings.Contains(err.Error(), "retired before request could start"):
+					return "retired-twice"
+				}
+				return "err"
+			})
+			after(tt, fmt.Sprintf("L call %d %s", tt, res))
+		case x < 88:
+			stat.Inc("loop.call.reset")
+			h.spawn(tt, func() string { _ = c.ResetDnsForwarders(); return "-" })
+			after(tt, fmt.Sprintf("L reset-fwd %d", tt))
+		default:
+			stat.Inc("loop.call.evict")
+			h.spawn(tt, func() string {
+				if _, e := w.cached(); e != nil {
+					e.lastUsedNano.Store(1) // idle for ever: the model's evictor always finds the entry idle
+				}
+				c.evictIdleDnsForwarders(time.Now())
+				return "-"
+			})
+			after(tt, fmt.Sprintf("L evict %d", tt))
+		}
+	}
+	nops := 8 + r.Intn(50)
+	for i := 0; i < nops; i++ {
+		tt := r.Intn(n)
+		if state[tt] == "mid" {
+			h.release(tt)
+			after(tt, fmt.Sprintf("L step %d", tt))
+		} else {
+			start(tt)
+		}
+	}
+	// drain: every call returns
+	for pass := 0; pass < 3; pass++ {
+		for tt := 0; tt < n; tt++ {
+			for guard := 0; state[tt] == "mid" && guard < 40; guard++ {
+				h.release(tt)
+				after(tt, fmt.Sprintf("L step %d", tt))
+			}
+		}
+	}
+	// quiescent: every forwarder but the cached one has been closed exactly once (oracle on the implementation)
+	ci, _ := w.cached()
+	for i, f := range w.fwds {
+		switch {
+		case f.closes.Load() > 1:
+			st.Emit(fmt.Sprintf("L life forwarder_%d_closed_%d_times", i, f.closes.Load()), "violated")
+		case f.afterClose.Load() > 0:
+			st.Emit(fmt.Sprintf("L life an_exchange_was_started_on_forwarder_%d_after_Close()", i), "violated")
+		case i != ci && f.closes.Load() == 0:
+			st.Emit(fmt.Sprintf("L life forwarder_%d_left_the_cache_(or_never_entered_it)_and_was_never_closed", i), "violated")
+		case i == ci && f.closes.Load() != 0:
+			st.Emit(fmt.Sprintf("L life forwarder_%d_is_in_the_cache_and_closed", i), "violated")
+		}
+		stat.Inc("loop.forwarders")
+	}
+	stat.Add("loop.forwarders-per-history", len(w.fwds))
 	return
 }
 
